@@ -159,6 +159,14 @@ func (f *contFam) linOp(w *World, client int, mode string, o ContOp) {
 			out = cOut{OK: f.m.CompareAndDelete(o.K, o.A)}
 		case "Clear":
 			f.m.Clear()
+		case "Keys":
+			// Keys / Len / Range are no atomic snapshots and their results are not judged; they are here because
+			// they walk the map's internals (read-only part, dirty part, promotion) concurrently with the others
+			_ = f.m.Keys()
+		case "Len":
+			_ = f.m.Len()
+		case "Range":
+			f.m.Range(func(string, int) bool { return true })
 		}
 	case "slice":
 		switch o.Op {
@@ -787,6 +795,13 @@ func GenCont(prop string, seed uint64, thorough bool) *Scenario {
 			}
 			if o.Op == "Clear" && !g.p(0.3) {
 				o.Op = "Load"
+			}
+			if g.p(0.2) {
+				// walkers and misses: they promote the dirty part while the others run
+				o.Op = g.picks("Keys", "Len", "Range", "Load", "Load")
+				if o.Op == "Load" {
+					o.K = "zz" // never stored: a miss
+				}
 			}
 			cs.Ops = append(cs.Ops, o)
 		}
